@@ -54,7 +54,7 @@ func c09CfgFor(fault string) *DeclCfg {
 	return cfg
 }
 
-var c09Faults = []string{"none", "unknown-option", "bad-value", "missing-argument", "flag-with-argument", "drop-required-option", "drop-required-positional", "unknown-command", "missing-command", "help", "help-in-cluster", "bad-choice", "exec-error", "completion", "bad-positional", "callback-error", "bad-env-value", "bad-env-choice"}
+var c09Faults = []string{"none", "unknown-option", "bad-value", "missing-argument", "flag-with-argument", "drop-required-option", "drop-required-positional", "unknown-command", "missing-command", "help", "help-in-cluster", "bad-choice", "exec-error", "completion", "bad-positional", "callback-error", "bad-env-value", "bad-env-choice", "bad-optional-value"}
 
 type hostHandlers struct {
 	handlerErr error
@@ -178,7 +178,8 @@ func c09Run(c *Ctx) {
 		if c.W.Tier == "race" {
 			return
 		}
-		os.Setenv("GO_FLAGS_COMPLETION", "1")
+		// (any non-empty value switches completion mode on)
+		os.Setenv("GO_FLAGS_COMPLETION", r.Pick([]string{"1", "1", "verbose", "true", "yes", "0", "x"}))
 		defer os.Unsetenv("GO_FLAGS_COMPLETION")
 		b.P.CompletionHandler = func(items []flags.Completion) { completions++ }
 	}
@@ -428,6 +429,37 @@ func injectFault(c *Ctx, r *Rand, d *Decl, sc *Scenario, fault string) (items []
 		}
 		items = insert(&Item{Kind: IFault, Toks: []string{tok}, Note: fault})
 		wantType = flags.ErrMarshal
+	case "bad-optional-value":
+		// an optional-argument option whose declared optional-value is not a value of its type (or not one of
+		// its choices), given bare: the refusal of that value is an error like any other
+		var cands []*Opt
+		for _, o := range scopeAt.Addressable(d) {
+			if !o.T.IsFunc() && !o.T.IsFlag() && o.T.W == WScalar && sc.Exp.Seen[o] == 0 && (isIntKind(o.T.K) || o.T.K == KFloat64 || o.T.K == KDuration || len(o.Choices) > 0) {
+				cands = append(cands, o)
+			}
+		}
+		if len(cands) == 0 {
+			c.Unspec("no option for fault " + fault)
+			return nil, 0, 0, 0, false, false
+		}
+		o := cands[r.Intn(len(cands))]
+		o.Optional = true
+		good := GenValueText(r, o)
+		o.OptionalValues = [][]string{{"!!bad"}, {good, "!!bad"}, {"!!bad", good}}[r.Intn(3)]
+		if len(o.Choices) == 0 && len(o.OptionalValues) > 1 && o.T.W == WScalar {
+			o.OptionalValues = []string{"!!bad"}
+		}
+		var tok string
+		if o.Long != "" && scopeAt.Long[d.FullLong(o)] == o {
+			tok = "--" + d.FullLong(o)
+		} else {
+			tok = "-" + string(o.Short)
+		}
+		items = insert(&Item{Kind: IFault, Toks: []string{tok}, Note: fault})
+		wantType = flags.ErrMarshal
+		if len(o.Choices) > 0 {
+			wantType = flags.ErrInvalidChoice
+		}
 	case "bad-env-value", "bad-env-choice":
 		// a bad value that arrives through an environment variable (any option of the parser, selected or not)
 		if c.W.Tier == "race" {
